@@ -244,6 +244,12 @@ pub fn alphabet_size(max_len: u32) -> u64 {
     n
 }
 
+/// `modules` with extreme ids (0 / 0x7fffffff / 0x80000000 / 0xffffffff), extreme header words and
+/// occasionally instructions of thousands of words
+fn sub_edge_ids(input: &[u8], st: &mut Stats) -> R {
+    with_edge_ids(|| sub_modules(input, st))
+}
+
 fn sub_modules(input: &[u8], st: &mut Stats) -> R {
     let mut cs = Cs::new(input);
     let mode = match cs.below(8) {
@@ -330,6 +336,7 @@ pub const SUBS: &[Sub] = &[
     Sub { name: "opcode-contexts", f: sub_sweep },
     Sub { name: "alphabet", f: sub_alphabet },
     Sub { name: "modules", f: sub_modules },
+    Sub { name: "edge-ids", f: sub_edge_ids },
 ];
 
 pub fn run(ctx: &Ctx) {
@@ -338,6 +345,7 @@ pub fn run(ctx: &Ctx) {
     let max_len = if ctx.quick() { 5 } else { 6 };
     drive_enum(ctx, &SUBS[1], alphabet_size(max_len));
     drive_random(ctx, &SUBS[2], ctx.n(40_000, 20_000_000), 1600);
+    drive_random(ctx, &SUBS[3], ctx.n(8_000, 4_000_000), 1600);
     if !ctx.quick() && !ctx.failed() {
         crate::fuzzing::drive_fuzz(ctx, "modules", 200000);
     }
